@@ -4,6 +4,10 @@
     and is not represented).  The code performs stream I/O only through four idioms — fixed-size
     [read_exact] (header, tile fetch), byte-wise reads (varints), [take(len)] + read-to-end (metadata,
     codec input) and [write_all] (all writes) — and each is proved independent of the schedule.
+    [C13_open_schedule_independent] composes this for the whole opening procedure: the open over the I/O interface
+    ([IOReader.open_io], on an ideal stream exactly what [from_reader] computes) whose every window is served by
+    seek + take + reads into a buffer of any size >= 1, on a stream that fragments each request by an arbitrary
+    schedule, computes what it computes on an in-memory buffer.
 
     Partial: that the Rust call sites are exactly these idioms (a plain [read] where [read_exact] is
     needed would be invisible on a full-transfer stream), Pending/waker behaviour and the codec
@@ -11,7 +15,7 @@
     fragmentation schedules (chunk sizes 1, k, random; Pending patterns for the async family; every
     composition of the transfer sizes for directories up to 13/16 bytes) and compared with the result on
     an in-memory buffer. *)
-Require Import PM.Base PM.Stream PM.IO PM.IOProofs.
+Require Import PM.Base PM.Oracles PM.Stream PM.IO PM.IOProofs PM.DirReader PM.IOReader PM.IOReaderProofs.
 Open Scope N_scope.
 
 (** read_exact: whatever the schedule, the same bytes and the same final position — or UnexpectedEof in both *)
@@ -47,6 +51,11 @@ Theorem C13_write_all : forall fuel bs w, (length bs <= fuel)%nat ->
   exists w', write_all fuel bs w = Ok w' /\ ws_img (wr_st w') = ws_img (ws_write (wr_st w) bs) /\
              ws_pos (wr_st w') = ws_pos (wr_st w) + nlen bs.
 Proof. exact write_all_spec. Qed.
+
+(** the whole open, with every window fetched through a fragmenting stream *)
+Theorem C13_open_schedule_independent : forall cx img sched buf r, 1 <= buf ->
+  open_io cx (stream_fetch img sched buf) r = open_io cx (img_fetch img) r.
+Proof. exact open_schedule_independent. Qed.
 
 Example C13_example :
   (do (b, _) <- read_exact 10 5 (mkRd [1;2;3;4;5;6;7] 1 [2;1;9] []); Ok b) = Ok [2;3;4;5;6] /\
